@@ -510,7 +510,7 @@ container's unfinished suffix -/
 theorem suspended_work_is_offered_again_whole_in_every_round_of_every_run (w : World) (st : St) (cs js : List Ctr) (newP F : List Nat) (inv : PM.PMInv w st cs js (newP ++ F)) :
     ∀ c ∈ js, ∃ job, (prRequeueSuspended w (prNoteSuspending w (prEnqueue w st (cs.map mkRes) newP))).has job ∧ job.ops = c.unfinished := by
   intro c hc
-  obtain ⟨_, _, _, cDS, _⟩ := PM.cidsOK_facts inv.cids
+  obtain ⟨_, _, _, cDS, _⟩ := cidsOK_facts inv.cids
   obtain ⟨x, hx, e⟩ := List.mem_map.mp (inv.has c hc)
   obtain ⟨_, _, _, _, _, p, hp, hcp⟩ := inv.park c hc
   obtain ⟨k, hk, hkp⟩ := PM.pool_index hp
@@ -534,5 +534,24 @@ theorem suspended_work_is_offered_again_whole_in_every_round_of_every_run (w : W
   rw [e] at hfind
   refine ⟨x.2, suspended_work_is_requeued w _ k c x.1 x.2 hk (by rw [hkp]; exact hcp) hfind, (inv.ent x hx c (Or.inl hc) e.symm).1⟩
 
+/-- **what waits in the queues, in every round of every run** (`priority`, multi-operator containers): under the loop invariant, the queued jobs share no
+operator; each holds at least one operator; every operator of it is PENDING or FAILED — never ASSIGNED, RUNNING, SUSPENDING or COMPLETED; each operator's parents
+are COMPLETED or earlier in the same job (so the job can be handed to the `Assignment` constructor as it is); and the job is *all* the unfinished work of its
+pipeline.  This is the link between "is in a queue" and "is ready, pending work" that the per-round theorems above take as given. -/
+theorem queued_jobs_are_ready_whole_and_distinct (w : World) (st : St) (cs js : List Ctr) (F : List Nat) (inv : PM.PMInv w st cs js F) :
+    (st.jobs.flatMap (·.ops)).Nodup ∧ ∀ j ∈ st.jobs, j.ops ≠ [] ∧ (∀ o ∈ j.ops, w.store.stOf o = pending ∨ w.store.stOf o = failed) ∧
+      ParentsOK w.store j.ops ∧ PM.WholeOps w.pipes w.store j.ops := by
+  refine ⟨inv.jobs.nd, fun j hj => ⟨(inv.jobs.ok j hj).ne, fun o ho => ?_, (inv.jobs.ok j hj).par, inv.whole j hj⟩⟩
+  have := ((inv.jobs.ok j hj).ok o ho).2.1
+  simpa [assignable] using this
+
+/-- the same link with single-operator containers: under the loop invariant of that mode (`C08.priority_single_operator_run_never_raises` re-establishes it tick
+after tick) every queued job is exactly one operator, no operator is queued twice, and each is PENDING or FAILED with *all its parents COMPLETED* — ready -/
+theorem queued_operators_are_ready_and_distinct_single (w : World) (st : St) (res : List Res) (inv : Prio.PRInv w st res) :
+    (st.jobs.flatMap (·.ops)).Nodup ∧ ∀ j ∈ st.jobs, ∃ o, j.ops = [o] ∧ (w.store.stOf o = pending ∨ w.store.stOf o = failed) ∧
+      ∀ p ∈ w.store.parentsOf o, w.store.stOf p = completed := by
+  refine ⟨inv.jobs.nd, fun j hj => ?_⟩
+  obtain ⟨o, e, ok⟩ := (inv.jobs.ok j hj).one
+  exact ⟨o, e, by simpa [assignable] using ok.2.1, ok.2.2.1⟩
 
 end Eudoxia.C12
